@@ -345,7 +345,7 @@ impl Property for C41 {
         "serialisation targets are zero-initialised buffers (serialize leaves the reserved octets Announce[12] and Management[10] untouched)",
         "release semantics: debug assertions off",
     ];
-    const QUICK_CASES: u32 = 1_500_000;
+    const QUICK_CASES: u32 = 4_000_000;
     const THOROUGH_CASES: u32 = 60_000_000;
 
     fn strategy(_tier: Tier) -> BoxedStrategy<Case> {
